@@ -1,9 +1,9 @@
 import InfluxQL.Model.SetTimeRange
 import InfluxQL.Model.CondSpec
 /-
-Declarative side of C18: the non-time part of a condition, the class of conditions whose time
-bounds are written `time ⋈ x` (`timeOnLeft`), node count, and the explicit print → parse
-hypothesis under which the theorems about `setTimeRange` are stated.
+Declarative side of C18: the non-time part of a condition, the class of conditions the theorems
+cover (`strClass`), node count, and the explicit print → parse hypothesis under which the
+theorems about `setTimeRange` are stated.
 -/
 namespace InfluxQL
 open Gen
@@ -21,27 +21,26 @@ def nonTimeHolds (tbl : List (Char × Char)) (L : Expr → Bool) : Expr → Bool
   | .boolean b => b
   | e => L e
 
-/-- Conditions whose time bounds are written with `time` (this spelling, no type suffix) on the
-left, joined by `AND` and parentheses to predicates that compare or match a tag or field with a
-reference or literal (no function calls); `OR` only between conditions without time bounds.
-The operator and the right operand of a time bound are arbitrary (`now()` included). -/
-def timeOnLeft (tbl : List (Char × Char)) : Expr → Bool
+/-- The class of C18: time bounds — `time` in any letter case and with any type annotation, on
+either side, any operator, any other operand (`now()` included) — joined by `AND` and parentheses
+to predicates that compare or match a tag or field with a reference, a literal or a function call
+over such operands; `OR` only between conditions without time bounds. -/
+def strClass (tbl : List (Char × Char)) : Expr → Bool
   | .binary op l r =>
-    if op = .AND then timeOnLeft tbl l && timeOnLeft tbl r
-    else if op = .OR then timeOnLeft tbl l && timeOnLeft tbl r && timeFree tbl l && timeFree tbl r
-    else if isTimeRef tbl l then l.print == timeText
-    else if isTimeRef tbl r then false
-    else isPredOp op && stablePred l r && l.print != timeText
-  | .paren e => timeOnLeft tbl e
+    if op = .AND then strClass tbl l && strClass tbl r
+    else if op = .OR then strClass tbl l && strClass tbl r && timeFree tbl l && timeFree tbl r
+    else if isTimeRef tbl l ∨ isTimeRef tbl r then true
+    else isPredOp op && stablePred l r
+  | .paren e => strClass tbl e
   | .boolean _ => true
   | _ => false
 
-/-- Residual shape without any reference to time: what `rewriteNoTime` leaves of a `timeOnLeft`
-condition, and what `creduce` keeps it as. -/
+/-- Residual shape without any reference to time: what `rewriteNoTime` leaves of a condition of
+the class, and what `creduce` keeps it as. -/
 def isResTF (tbl : List (Char × Char)) : Expr → Bool
   | .binary op l r =>
     if op = .AND ∨ op = .OR then isResTF tbl l && isResTF tbl r
-    else isPredOp op && stablePred l r && l.print != timeText && !isTimeRef tbl l && !isTimeRef tbl r
+    else isPredOp op && stablePred l r && !isTimeRef tbl l && !isTimeRef tbl r
   | .paren e => isResTF tbl e
   | .boolean _ => true
   | _ => false
@@ -59,24 +58,24 @@ mutual
 end
 
 /-- The tree the parser is expected to build from the text `SetTimeRange` prints. -/
-def expectedTree (c : Expr) (w : Window) : Expr :=
-  .binary .AND (.binary .AND (rewriteNoTime c) (geBound w.start)) (ltBound w.stop)
+def expectedTree (tbl : List (Char × Char)) (c : Expr) (w : Window) : Expr :=
+  .binary .AND (.binary .AND (rewriteNoTime tbl c) (geBound w.start)) (ltBound w.stop)
 
 /-- **Print → parse hypothesis** (what C02/C03 would provide for this fragment): the printed
 rewritten condition, followed by ` AND time >= '…' AND time < '…'`, parses to the rewritten
 condition conjoined with the two bounds. It fails when the rewritten condition has an
 unparenthesised `OR` at the top (see `top_level_or_regroups`). -/
 def RT (tbl : List (Char × Char)) (c : Expr) (w : Window) : Prop :=
-  parseExprText (setTimeRangeText (some c) w) [] tbl = .ok (expectedTree c w)
+  parseExprText (setTimeRangeText tbl (some c) w) [] tbl = .ok (expectedTree tbl c w)
 
 /-- What `setTimeRange` computes when `RT` holds. -/
-def stepSpec (fa : FloatArith) (c : Expr) (w : Window) : Expr :=
-  creduce (nilRCtx fa) (expectedTree c w)
+def stepSpec (fa : FloatArith) (tbl : List (Char × Char)) (c : Expr) (w : Window) : Expr :=
+  creduce (nilRCtx fa) (expectedTree tbl c w)
 
 /-- `RT` along a sequence of windows. -/
 def RTSeq (fa : FloatArith) (tbl : List (Char × Char)) : Expr → List Window → Prop
   | _, [] => True
-  | c, w :: ws => RT tbl c w ∧ RTSeq fa tbl (stepSpec fa c w) ws
+  | c, w :: ws => RT tbl c w ∧ RTSeq fa tbl (stepSpec fa tbl c w) ws
 
 /-- **Window hypothesis**: the two printed instants read back as the instants they were printed
 from (a property of `Format(RFC3339Nano)` / `ParseInLocation`, checked by `decide` for concrete
